@@ -538,12 +538,13 @@ func (s *spanScreen) setCursorPos(x, y int) {
 
 func (s *spanScreen) setScrollMarginTopBottom(top, bottom int) {
 	debugPrintln(debugScroll, "scroll margins:", top, bottom)
-	top = clamp(top, 0, s.size.Y-1)
-	bottom = clamp(bottom, 0, s.size.Y-1)
 	if top > bottom {
-		// a region whose top lies below its bottom is ignored
+		// a region whose top lies below its bottom is ignored, also when both
+		// lie beyond the screen (clamping first would make them equal)
 		return
 	}
+	top = clamp(top, 0, s.size.Y-1)
+	bottom = clamp(bottom, 0, s.size.Y-1)
 	s.topMargin = top
 	s.bottomMargin = bottom
 }
